@@ -380,7 +380,7 @@ RULE = (
 )
 
 FAMILIES = [
-    Family('F1_framing', 'pure', framing_spec(), run_framing, quick=4000, thorough=400_000, shards_quick=8, rule=RULE),
+    Family('F1_framing', 'pure', framing_spec(), run_framing, quick=4000, thorough=400_000, shards_quick=8, rule=RULE, fuzz=('mpservice.socket',)),
     Family('F2_socket_end_to_end', 'real', e2e_spec(), run_e2e, quick=96, thorough=4000, shards_quick=12, shards_thorough=16, rule=RULE, shrink=False, teardown=_stop_server),
     Family('F3_named_pipe', 'real', pipe_spec(), run_pipe, quick=120, thorough=5000, shards_quick=4, shards_thorough=8, rule=RULE, shrink=False),
 ]
